@@ -81,6 +81,88 @@ def in_fault(f, root):
     return any(r.startswith(p) for p in FAULT_PREFIXES), r
 
 
+STATE_TABLE = {
+    # mutable variables with static / thread storage duration in the fault layer, and why each is compatible with
+    # "a run is a function of (program, seed, configuration)"
+    'instance': 'the Injector (static local of GetInjector): its state is D6',
+    'sDefaults': 'thread-local proxy defaults, keyed by an integer index (D4)',
+    'yaclib::detail::eng': 'the single seeded engine (D2)',
+    'yaclib::detail::sSeed': 'the seed (D2)',
+    'yaclib::detail::sRandCount': 'the draw counter, restarted by SetSeed (D2)',
+    'yaclib::detail::sAtomicFailFrequency': 'configuration (SetAtomicFailFrequency)',
+    'yaclib::detail::sYieldFrequency': 'configuration (SetFaultFrequency)',
+    'yaclib::detail::sSleepTime': 'configuration (SetFaultSleepTime)',
+    'yaclib::detail::sInjectedCount': 'statistics: written by the injector, read only by its getter',
+    'yaclib::detail::fiber::sRandomListPick': 'configuration (SetFaultRandomListPick)',
+    'yaclib::detail::fiber::gHardwareConcurrency': 'configuration (SetHardwareConcurrency)',
+    'yaclib::detail::fiber::(anonymous namespace)::gCacheSize': 'configuration (stack cache size)',
+    'yaclib::detail::fiber::sAllocator': 'the stack allocator: recycles stacks, takes no scheduling decision',
+    'yaclib::detail::fiber::sNextId': 'fiber id counter: ids are compared for equality only (ownership, join)',
+    'yaclib::fault::sTickLength': 'configuration (SetFaultTickLength)',
+    'yaclib::fault::sCurrent': 'the running fiber (scheduler)',
+    'yaclib::fault::sCurrentScheduler': 'the installed scheduler',
+}
+
+
+def check_static_state(ctx, fb, rule):
+    """D7: every mutable variable with static or thread storage duration defined in the fault layer is listed in
+    STATE_TABLE.  A new one is reported when decision code READS it (any use other than being assigned / incremented or
+    returned by a one-line getter): such state survives SetSeed, is not part of (random count, injector state) and is
+    not rebuilt by a new Scheduler — the same seed then no longer means the same run (second run in one process,
+    restored continuation).  A new write-only / getter-only variable (statistics) is listed in the evidence, not
+    reported."""
+    seen = 0
+    for name, v in sorted(fb.vars.items()):
+        if '/fault/' not in v['file'] or v['const'] or v.get('member') and not v.get('staticlocal') and False:
+            continue
+        if v['const']:
+            continue
+        seen += 1
+        known = name in STATE_TABLE
+        ctx.instance(rule, 'D7 %s' % name, dict(type=v['t'][:60], where='%s:%s' % (facts.rel(v['file']), v['line']),
+                                                role=STATE_TABLE.get(name, '(not in the table)')))
+        if known:
+            continue
+        short = name.split('::')[-1]
+        readers = []
+        for f in fb.fn.values():
+            if '/fault/' not in f.file or f.cfg is None:
+                continue
+            refs = [n for n in f.own_nodes() if n['k'] == 'DeclRefExpr' and (
+                n.get('dn') == name or n.get('dnf') == name or (n.get('dn', '').split('::')[-1] == short and
+                                                               v.get('staticlocal')))]
+            if not refs:
+                continue
+            stmts = [n for n in f.own_nodes() if n['k'] in ('ReturnStmt', 'IfStmt', 'WhileStmt', 'ForStmt', 'DoStmt',
+                                                            'DeclStmt', 'CallExpr', 'CXXMemberCallExpr',
+                                                            'BinaryOperator', 'CompoundAssignOperator',
+                                                            'UnaryOperator')]
+            getter = len([n for n in f.own_nodes() if n['k'] == 'ReturnStmt']) == 1 and len(stmts) <= 2
+            for r in refs:
+                par = f.parents.get(r['i'])
+                while par is not None and f.nodes[par]['k'] in ('ImplicitCastExpr', 'ParenExpr'):
+                    up = f.parents.get(par)
+                    if f.nodes[par]['k'] == 'ImplicitCastExpr' and f.nodes[par].get('cast') == 'LValueToRValue':
+                        break
+                    par = up
+                pn = f.nodes[par] if par is not None else None
+                written = pn is not None and (
+                    (pn['k'] in ('BinaryOperator', 'CompoundAssignOperator') and pn.get('op', '').endswith('=') and
+                     pn['op'] not in ('==', '!=', '<=', '>=') and f.strip(pn['ch'][0]) == r['i']) or
+                    (pn['k'] == 'UnaryOperator' and pn.get('op') in ('++', '--')))
+                if written or getter:
+                    continue
+                readers.append('%s (%s)' % (f.qn, f.loc(r)))
+        if readers:
+            ctx.report(rule, 'D7 %s' % name, '%s:%s' % (facts.rel(v['file']), v['line']),
+                       'new mutable %s state `%s` in the fault layer is read by %s: it survives SetSeed, is not part of '
+                       'the (random count, injector state) pair and is not rebuilt with the Scheduler — a second run '
+                       'with the same seed in this process, or a restored continuation, decides differently' % (
+                           'thread-local' if v['tls'] else 'static', short, readers[0]))
+    if seen < 10:
+        ctx.broken('D7: only %d mutable static variables found in the fault layer' % seen)
+
+
 def run(ctx):
     fbs = ctx.facts(['KF'], kinds=('lib', 'probe'), only=r'src/fault/|p_std\.cpp$|p_atomic\.cpp$', tests=r'/test/')
     fb = fbs['KF']
@@ -446,6 +528,11 @@ def run(ctx):
                    'sleeping fibers are kept in a hash container (%s): wake-up order depends on the hash order' %
                    sl[0]['t'][:80])
 
+    # ---------------------------------------------------------------- D7
+    d7 = ctx.rule('D7', 'mutable process-wide state of the fault layer is the reviewed set (configuration, seed, engine, '
+                  'draw counter, injector, scheduler pointers ...); a new static that is read by decision code is outside '
+                  'SetSeed / the injector state', minimum=10)
+    check_static_state(ctx, fb, d7)
     # ---------------------------------------------------------------- D6
     inj = fb.records.get('yaclib::detail::Injector')
     if inj is None:
